@@ -49,7 +49,7 @@ ATOM_SRC = {
 OP_SRC = {
     "Inv": "Inv[%s]", "Co": "Co[%s]", "Contra": "Contra[%s]", "VarTuple": "Tuple[%s, ...]",
     "Opt": "Optional[%s]", "Seq": "Sequence[%s]", "PG": "PG[%s]", "PContra": "PContra[%s]", "TypeOf": "Type[%s]",
-    "Tuple2": "Tuple[%s, %s]", "Tuple3": "Tuple[%s, %s, %s]",
+    "Tuple1": "Tuple[%s]", "Tuple2": "Tuple[%s, %s]", "Tuple3": "Tuple[%s, %s, %s]", "Tuple4": "Tuple[%s, %s, %s, %s]",
     "TuplePre": "Tuple[%s, Unpack[Tuple[%s, ...]]]",
     "FnPos": "Callable[[%s], %s]", "FnNamed": "Callable[[Arg(%s, 'x')], %s]",
     "FnOpt": "Callable[[DefaultArg(%s)], %s]", "FnOptNamed": "Callable[[DefaultArg(%s, 'x')], %s]",
@@ -68,8 +68,18 @@ def atom(a: str) -> Term:
     return {"op": a, "args": []}
 
 
+VT_PREFIX = {"VT0": 0, "VT1": 1, "VT2": 2}   # variadic tuple: prefix items, the unpacked item, suffix items
+
+
+def _variadic(op: str, parts: list[str]) -> str:
+    p = min(VT_PREFIX[op], len(parts) - 1)     # (minimisation may have hoisted items away)
+    return "Tuple[%s]" % ", ".join(parts[:p] + ["Unpack[Tuple[%s, ...]]" % parts[p]] + parts[p + 1:])
+
+
 def render(t: Term) -> str:
     op, args = t["op"], t["args"]
+    if args and op in VT_PREFIX:
+        return _variadic(op, [render(a) for a in args])
     if not args:
         if op in ATOM_SRC:
             return ATOM_SRC[op]
@@ -234,6 +244,14 @@ def contains_any(typ: Any) -> bool:
             if t.type.fullname == "builtins.type" or t.type.fallback_to_any:
                 return True
             return super().visit_instance(t)
+
+        # the fallback Instance of a tuple / TypedDict is machinery (a plain tuple's partial_fallback is
+        # tuple[Any, ...] whatever the items are), not part of the type the user wrote: look at the items
+        def visit_tuple_type(self, t: Any) -> bool:
+            return self.query_types(list(t.items))
+
+        def visit_typeddict_type(self, t: Any) -> bool:
+            return self.query_types(list(t.items.values()))
 
     return bool(typ.accept(Q()))
 
@@ -546,6 +564,8 @@ def render_shape(t: Term) -> str:
         return "Union[%s]" % ", ".join(render_shape(a) for a in args)
     if op == "Opt":
         return "Optional[%s]" % render_shape(args[0])
+    if op in VT_PREFIX:
+        return _variadic(op, [render_shape(a) for a in args])
     return OP_SRC[op] % tuple(render_shape(a) for a in args)
 
 
